@@ -67,7 +67,7 @@ class Gen(object):
             ar = "".join(chr(0x0660 + int(c)) if c.isdigit() else c for c in u)
             return self.ch(["0" + u, " " + u, u + " ", "+" + u, u + ".0", u + "e0", "\t" + u, u + "\n", "  " + u + "  ",
                             "0_" + u, u[0] + "_" + u[1:] if len(u) > 1 else "0_" + u, fw, ar, u + "\u00a0", "0x" + u,
-                            u + "  x", "key  one", "key one ", "key\u00a0one", " "])
+                            u + "  x", "key  one", "key one ", "key\u00a0one", " ", "", ""])
         if x < 0.16 and self.dead:
             return self.ch(self.dead)
         if self.live and x < 0.95:
